@@ -10,7 +10,7 @@
     clone <c> | combine <a> <b>                      → c<k> / <error>
 
     <sym>      s<k> | g<k>                 (g = subscripted form of a generic class)
-    <factory>  f<fid>/<aid>/<params>   aid = identity of the annotated callable; params: `,`-separated `_` (unannotated) | <sym>, `-` = none
+    <factory>  f<fid>/<aid>/<params> (r<fid>/… = the body raises)   aid = identity of the annotated callable; params: `,`-separated `_` (unannotated) | <sym>, `-` = none
     <defs>     `;`-separated s<k>=<inj>, `-` = none;  <inj> = <factory> | n<name>@<factory> | n<name>!attr | n<name>!mod
     <args>     `,`-separated x<id>:<ty>, `-` = none
 -/
@@ -36,9 +36,9 @@ def parseParams (s : String) : Option (List (Option SymRef)) :=
 def parseFactory (s : String) : Option Factory :=
   match s.splitOn "/" with
   | [f, q, ps] =>
-    if !f.startsWith "f" then none else
+    if !(f.startsWith "f" || f.startsWith "r") then none else
     match natOf (f.drop 1).toString, natOf q, parseParams ps with
-    | some fid, some aid, some params => some ⟨fid, aid, params⟩
+    | some fid, some aid, some params => some ⟨fid, aid, params, f.startsWith "r"⟩
     | _, _, _ => none
   | _ => none
 
